@@ -283,6 +283,36 @@ func checkC17(c *Ctx) {
 		c.violation("setup", "external-load", nil, fmt.Sprintf("Load(<copy of the shipped schema files>) fails: %v", err), nil)
 		return
 	}
+	// the same files named in other ways: with the file:// scheme, with blanks around
+	// the name, with a name that is not clean, and by a name that is a symbolic link
+	// (references in a schema are relative to the name it was loaded by: defs.json is
+	// the one next to the link, there is none next to the link's target)
+	linkTarget := filepath.Join(c.Scratch, "extschema-target")
+	linkDir := filepath.Join(c.Scratch, "extschema-link")
+	must(os.MkdirAll(linkTarget, 0o755))
+	must(os.MkdirAll(linkDir, 0o755))
+	for f, d := range map[string]string{"schema.json": linkTarget, "defs.json": linkDir} {
+		data, err := os.ReadFile(filepath.Join(c.Repo, "schema", f))
+		must(err)
+		must(os.WriteFile(filepath.Join(d, f), data, 0o644))
+	}
+	must(os.Symlink(filepath.Join(linkTarget, "schema.json"), filepath.Join(linkDir, "schema.json")))
+	externals := []*schema.Schema{external}
+	externalNames := []string{"external"}
+	for _, v := range []struct{ tag, src string }{
+		{"external[file://]", "file://" + filepath.Join(ext, "schema.json")},
+		{"external[blanks]", "  " + filepath.Join(ext, "schema.json") + "\n"},
+		{"external[unclean]", ext + "/../extschema//./schema.json"},
+		{"external[symlink]", filepath.Join(linkDir, "schema.json")},
+	} {
+		x, err := schema.Load(v.src)
+		if err != nil {
+			c.violation("setup", "external-load", map[string]string{"entry": v.tag}, fmt.Sprintf("Load(%q) (%s: the shipped schema files) fails: %v", v.src, v.tag, err), nil)
+			return
+		}
+		externals = append(externals, x)
+		externalNames = append(externalNames, v.tag)
+	}
 	none, err := schema.Load("none")
 	if err != nil {
 		c.HarnessError("Load(none): %v", err)
@@ -489,7 +519,9 @@ func checkC17(c *Ctx) {
 			return m
 		}
 		rb := entries(builtin, "builtin", true)
-		re := entries(external, "external", false)
+		xi := r.Intn(len(externals))
+		c.Count("evaluations:"+externalNames[xi], 1)
+		re := entries(externals[xi], externalNames[xi], false)
 		all := append(append([]res{}, rb...), re...)
 		c.Count("entry_point_evaluations", len(all))
 		// (1) equals the draft-07 verdict
